@@ -114,6 +114,9 @@ def worker_task(args):
     """Runs one check in one worker. Returns a JSON-able result dict."""
     prop, check_name, tier, seed, worker, nworkers = args
     import importlib
+    import sys
+
+    sys.setrecursionlimit(20000)
 
     from . import engine as eng
 
